@@ -1068,3 +1068,21 @@ package kafka
 //@   modifies heap
 //@   ensures result != nil ==> result == atexit(0, b.queue[0]) && same(b.queue, atexit(0, b.queue[1:]))
 //@   ensures result != nil ==> (forall i :: 0 <= i && i < len(b.queue) ==> b.queue[i] == atexit(0, b.queue[i + 1]))
+
+//@ property C03
+
+// fetchOffsets: every start offset handed to a generation comes from the coordinator's answer for that very topic and
+// partition (the committed offset, or StartOffset when there is none) - an entry is never taken from another topic.
+//@ iface coordinator.offsetFetch
+//@   trusted sends OffsetFetch to the group coordinator
+//@ func (*ConsumerGroup).fetchOffsets
+//@   option noframe
+//@   modifies heap
+//@   let R = offsetsByTopic
+//@   ensures result1 == nil ==> (forall kid ref, p int :: inmap(result0, kid) && haskey(mapat(result0, kid), p) ==> (exists i, j :: 0 <= i && i < len(offsets.Responses) && 0 <= j && j < len(offsets.Responses[i].PartitionResponses) && keyof(offsets.Responses[i].Topic) == kid && p == int(offsets.Responses[i].PartitionResponses[j].Partition) && mapat(result0, kid)[p] == ite(offsets.Responses[i].PartitionResponses[j].Offset < 0, cg.config.StartOffset, offsets.Responses[i].PartitionResponses[j].Offset)))
+//@   loop 1 invariant R != nil && (forall kid ref :: inmap(R, kid) ==> mapat(R, kid) != nil)
+//@   loop 1 invariant forall kid ref, p int :: inmap(R, kid) && haskey(mapat(R, kid), p) ==> (exists i, j :: 0 <= i && i < len(offsets.Responses) && 0 <= j && j < len(offsets.Responses[i].PartitionResponses) && keyof(offsets.Responses[i].Topic) == kid && p == int(offsets.Responses[i].PartitionResponses[j].Partition) && mapat(R, kid)[p] == ite(offsets.Responses[i].PartitionResponses[j].Offset < 0, cg.config.StartOffset, offsets.Responses[i].PartitionResponses[j].Offset))
+//@   loop 2 invariant R != nil && (forall kid ref :: inmap(R, kid) ==> mapat(R, kid) != nil) && offsetsByPartition != nil && haskey(R, res.Topic) && R[res.Topic] == offsetsByPartition && (forall kid ref :: inmap(R, kid) && kid != keyof(res.Topic) ==> mapat(R, kid) != offsetsByPartition)
+//@   loop 2 invariant forall kid ref, p int :: inmap(R, kid) && haskey(mapat(R, kid), p) ==> (exists i, j :: 0 <= i && i < len(offsets.Responses) && 0 <= j && j < len(offsets.Responses[i].PartitionResponses) && keyof(offsets.Responses[i].Topic) == kid && p == int(offsets.Responses[i].PartitionResponses[j].Partition) && mapat(R, kid)[p] == ite(offsets.Responses[i].PartitionResponses[j].Offset < 0, cg.config.StartOffset, offsets.Responses[i].PartitionResponses[j].Offset))
+//@   loop 3 invariant R != nil && (forall kid ref :: inmap(R, kid) ==> mapat(R, kid) != nil) && offsetsByPartition != nil && haskey(R, res.Topic) && R[res.Topic] == offsetsByPartition && (forall kid ref :: inmap(R, kid) && kid != keyof(res.Topic) ==> mapat(R, kid) != offsetsByPartition)
+//@   loop 3 invariant forall kid ref, p int :: inmap(R, kid) && haskey(mapat(R, kid), p) ==> (exists i, j :: 0 <= i && i < len(offsets.Responses) && 0 <= j && j < len(offsets.Responses[i].PartitionResponses) && keyof(offsets.Responses[i].Topic) == kid && p == int(offsets.Responses[i].PartitionResponses[j].Partition) && mapat(R, kid)[p] == ite(offsets.Responses[i].PartitionResponses[j].Offset < 0, cg.config.StartOffset, offsets.Responses[i].PartitionResponses[j].Offset))
